@@ -7,9 +7,12 @@ use crate::core::Multi;
 pub mod c01;
 pub mod c02;
 pub mod c03;
+pub mod c04;
 pub mod c05;
+pub mod c08;
 pub mod c09e;
 pub mod c10e;
+pub mod c11;
 pub mod c12;
 pub mod c13;
 pub mod c14;
@@ -24,6 +27,7 @@ pub mod cfgcommon;
 pub mod c20;
 pub mod diffcommon;
 pub mod execcommon;
+pub mod expcommon;
 pub mod seqcommon;
 
 pub fn by_id(id: &str) -> Option<Arc<dyn DynMonitor>> {
@@ -31,7 +35,10 @@ pub fn by_id(id: &str) -> Option<Arc<dyn DynMonitor>> {
         "C01" => Arc::new(Erased(c01::C01)),
         "C02" => Arc::new(Erased(c02::C02)),
         "C03" => Arc::new(Erased(c03::C03)),
+        "C04" => Arc::new(Erased(c04::C04)),
         "C05" => Arc::new(Erased(c05::C05)),
+        "C08" => Arc::new(Erased(c08::C08)),
+        "C11" => Arc::new(Erased(c11::C11)),
         "C18" => Arc::new(Erased(c18::C18)),
         "C16" => Arc::new(Multi {
             id: "C16",
